@@ -5,6 +5,7 @@ import Driver.Ops
 import Driver.SpecP
 import Driver.ProcR
 import Driver.Dir
+import Driver.Pop
 open Lean Driver
 
 def handle (line : String) : Verdict :=
@@ -18,6 +19,7 @@ def handle (line : String) : Verdict :=
       else if mode == "ops" then OpsReplay.replay j
       else if mode == "spec" then SpecReplay.replay j
       else if mode == "proc" then ProcReplay.replay j
+      else if mode == "pop" then PopReplay.replay j
       else if mode == "sel" then DirReplay.replaySel j
       else if mode == "live" then DirReplay.replayLive j
       else if mode == "mix" then DirReplay.replayMix j
